@@ -10,6 +10,13 @@
 
 /* implication usable both in CBMC clauses and in native replay */
 #define IMP(a, b) (!(a) || (b))
+/* ---- ghost state (nondeterministic statics under DFCC; never read by library code) ---- */
+/* generic witnesses: an arbitrary index / element position, fixed by the harness, never written by code */
+int verif_w, verif_k;
+/* C15 */
+int verif_last_count; /* value returned by the last ep_speech_count() */
+int verif_vad_rate;   /* sample rate reported by the (assumed) VAD */
+
 #if defined(SSW_CBMC)
 /* "the process is never terminated" becomes an obligation of every group */
 #ifndef SSW_NO_STUB_DEFS
@@ -25,6 +32,29 @@ void ssw_abort(void) { __CPROVER_assert(0, "process exit reached (abort)"); __CP
 #define SSW_ASSUME(c) __CPROVER_assume(c)
 #define IN(type, name) type name
 #define IN_ARR(type, name, n) type name[n]
+/* memcpy/memmove with a symbolic length: CBMC's built-in model (array_replace over a variable-length array) gave a
+ * wrong copy in a probe, so the verification build uses plain byte loops (unwound; the unwinding assertion makes the
+ * bound an obligation).  Groups that only need bounds replace ssw_memcpy by its contract instead. */
+#ifndef SSW_NO_MEM_STUBS
+void *ssw_memcpy(void *dst, const void *src, size_t n)
+{
+    for (size_t i = 0; i < n; i++) ((unsigned char *)dst)[i] = ((const unsigned char *)src)[i];
+    return dst;
+}
+void *ssw_memmove(void *dst, const void *src, size_t n)
+{
+    if ((const unsigned char *)dst <= (const unsigned char *)src || !__CPROVER_same_object(dst, src))
+        for (size_t i = 0; i < n; i++) ((unsigned char *)dst)[i] = ((const unsigned char *)src)[i];
+    else
+        for (size_t i = n; i > 0; i--) ((unsigned char *)dst)[i - 1] = ((const unsigned char *)src)[i - 1];
+    return dst;
+}
+#else
+void *ssw_memcpy(void *dst, const void *src, size_t n);
+void *ssw_memmove(void *dst, const void *src, size_t n);
+#endif
+#define memcpy ssw_memcpy
+#define memmove ssw_memmove
 #elif defined(SSW_REPLAY)
 #include <stdio.h>
 /* native replay: inputs come from the verifier's counterexample (replay/replay_main.c) */
